@@ -422,7 +422,12 @@ def rule_views(run):
     views.run_rule(run, "F-VIEW")   # nested records / bit fields are slices of slices: offsets must accumulate
 
 
-RULES = [rule_core, rule_record, rule_std_array, rule_bitfield, rule_adapters, rule_template, rule_value_qualifier, rule_views]
+def rule_template_arg(run):
+    from ..rules import eqhash
+    eqhash.run_rule(run, "F-EQ", ["cohdl/std/_fixed.py", "cohdl/std/_template.py"])   # fixed-point formats are cache keys of the serialised types
+
+
+RULES = [rule_core, rule_record, rule_std_array, rule_bitfield, rule_adapters, rule_template, rule_value_qualifier, rule_views, rule_template_arg]
 LEVEL = "other"
 EXPLANATION = (
     "Serialisers are interpreted abstractly over symbolic bits (sa/absint.py; cohdl is never imported): for Bit, the "
